@@ -42,7 +42,7 @@ type cfg struct {
 	e      catalog.Entry
 	ids    catalog.IDAssignment
 	runner bool // additionally run the networked runners with the same seeds and compare
-	sign   int // k256 only: the reloaded shards of a qualified quorum sign (Lindell22 BIP-340). 0: no; 1: the first
+	sign   int  // k256 only: the reloaded shards of a qualified quorum sign (Lindell22 BIP-340). 0: no; 1: the first
 	// qualified quorum with >= 2 members, first seed only; 2: first quorum (quick) / every such quorum (thorough), both seeds
 }
 
@@ -102,34 +102,26 @@ func (g grp[E, S]) exec(x *engine.X, c cfg) {
 	tag := c.tag()
 	var pks [][]byte
 	for si, seed := range seeds() {
-		where := fmt.Sprintf("%s/%s/%s/ids=%s/seed=%d", tag, g.name, c.e.Name, c.ids.Name, seed)
-		x.Case(where)
+		st := newSite(tag, fmt.Sprintf("%s/%s/%s/ids=%s/seed=%d", tag, g.name, c.e.Name, c.ids.Name, seed), c.e.P)
+		x.Case(st.where)
 		shards, err := g.rounds(c, ids, ac, seed)
 		if err != nil {
-			x.Failf(tag+"/run/failed", "%s: honest key generation (round by round) failed: %v", where, err)
+			st.failf(x, "run/failed", "honest key generation (round by round) failed: %v", err)
 			continue
 		}
-		pk := checkShards(x, g, tag, where, c.e.P, ids, ac, shards)
+		pk := checkShards(x, g, st, c.e.P, ids, ac, shards)
 		pks = append(pks, pk)
-		rl := reload(x, tag, where, ids, shards)
-		if rl != nil {
-			// the reloaded material is the same key material: same oracle verdicts on the reloaded public part
-			for _, id := range ids {
-				if !rl[id].PublicKeyValue().Equal(shards[ids[0]].PublicKeyValue()) {
-					x.Failf(tag+"/cbor/pk", "%s: reloaded shard of %d reports another key", where, id)
-				}
-			}
-		}
+		rl := reload(x, st, ids, shards)
 		if rl != nil && (c.sign == 2 || c.sign == 1 && si == 0) {
 			if orig, ok := any(shards).(map[sharing.ID]*proto.K256Shard); ok {
 				rel := any(rl).(map[sharing.ID]*proto.K256Shard)
 				for _, qm := range signingQuorums(c.e.P, c.sign == 2 && engine.Thorough()) {
 					q := catalog.Subset(ids, qm)
 					msg := []byte("C03 store/reload " + c.e.Name)
-					s1 := signAndVerify(x, tag, where, "original", orig, q, msg, seed)
-					s2 := signAndVerify(x, tag, where, "reloaded", rel, q, msg, seed)
+					s1 := signAndVerify(x, st, "original", orig, q, msg, seed)
+					s2 := signAndVerify(x, st, "reloaded", rel, q, msg, seed)
 					if s1 != nil && s2 != nil && !s1.Equal(s2) {
-						x.Failf(tag+"/sign/reloaded-differs", "%s: quorum %v: with identical randomness the reloaded shards sign %s, the originals %s", where, q, sigString(s2), sigString(s1))
+						st.failf(x, "sign/reloaded-differs", "quorum %v: with identical randomness the reloaded shards sign %s, the originals %s", q, sigString(s2), sigString(s1))
 					}
 				}
 			}
@@ -140,7 +132,7 @@ func (g grp[E, S]) exec(x *engine.X, c cfg) {
 				panic(engine.HarnessError{Msg: info.HarnessErr})
 			}
 			if info.Deadlock != "" {
-				x.Failf(tag+"/runner/deadlock", "%s: honest runners deadlocked: %s", where, info.Deadlock)
+				st.failf(x, "runner/deadlock", "honest runners deadlocked: %s", info.Deadlock)
 				continue
 			}
 			out := shardMap[E, S]{}
@@ -149,7 +141,7 @@ func (g grp[E, S]) exec(x *engine.X, c cfg) {
 				r := res[id]
 				if r == nil || !r.Done || r.Err != nil || r.Panic != "" || r.Starved || r.Out == nil {
 					bad = true
-					x.Failf(tag+"/runner/failed", "%s: party %d did not finish the honest run over routers: done=%v starved=%v err=%v panic=%s (stuck: %s)", where, id, r != nil && r.Done, r != nil && r.Starved, errOf(r), panicOf(r), info.Stuck)
+					st.failf(x, "runner/failed", "party %d did not finish the honest run over routers: done=%v starved=%v err=%v panic=%s (stuck: %s)", id, r != nil && r.Done, r != nil && r.Starved, errOf(r), panicOf(r), info.Stuck)
 					continue
 				}
 				out[id] = r.Out
@@ -157,14 +149,14 @@ func (g grp[E, S]) exec(x *engine.X, c cfg) {
 			if bad {
 				continue
 			}
-			rpk := checkShards(x, g, tag, where+"/runner", c.e.P, ids, ac, out)
+			rpk := checkShards(x, g, st.sub("/runner"), c.e.P, ids, ac, out)
 			if !bytes.Equal(rpk, pk) {
-				x.Failf(tag+"/api/pk-differs", "%s: with the same seeds the runner API gives pk=%x, the round-by-round API pk=%x", where, rpk, pk)
+				st.failf(x, "api/pk-differs", "with the same seeds the runner API gives pk=%x, the round-by-round API pk=%x", rpk, pk)
 			}
 		}
 	}
 	if len(pks) == 2 && pks[0] != nil && bytes.Equal(pks[0], pks[1]) {
-		x.Failf(tag+"/seeds/same-pk", "%s/%s/%s: two runs with different seeds produced the same public key %x", tag, g.name, c.e.Name, pks[0])
+		newSite(tag, fmt.Sprintf("%s/%s/%s/ids=%s", tag, g.name, c.e.Name, c.ids.Name), c.e.P).failf(x, "seeds/same-pk", "two runs with different seeds produced the same public key %x", pks[0])
 	}
 }
 
